@@ -28,4 +28,37 @@ CLAIMS = {
              "hyper_sum_one (Vandermonde), project_mass, project_nonneg, project_id, hyper_compose / project_project (two steps = direct), and the validation logic; the model is compared with "
              "Spectrum::project on all admissible targets of exhaustive small shapes and with hypergeometric_pmf at sizes up to 5000 chromosomes (exact rational reference).",
         note=NOTE_COMMON + " Partial clause: finiteness / accuracy of the binary64 evaluation at thousands of chromosomes is explored by coefficient probes (exact reference, 2^-30 relative), not proved."),
+    "C01": dict(
+        text="Unbounded Lean theorems: the stateful site reader equals a pure per-record specification (C11), and without projection entry k of the created spectrum is exactly the number of records that are complete "
+             "on the selected samples with per-population ALT counts k (run_eq_spec), the shape rule, in-bounds of every counted index, irrelevance of unselected columns, zero contribution of incomplete records; "
+             "model compared with the real site reader in-process (exhaustive small scope + random) and with `sfs create` stdout byte for byte.",
+        note=NOTE_COMMON + " VCF/BCF parsing (noodles) is exercised through generated files, not modelled; the model starts at genotype results per column."),
+    "C02": dict(
+        text="Lean theorems: site classification by called totals vs target, contribution = product of hypergeometric pmfs, the boundary t = m equals the degenerate hypergeometric, output = sum of contributions with shape m+1, "
+             "-p i = --project-shape 2i+1, the builder's three errors in order, and project-after-create = create-with-projection for complete data; compared in-process (exhaustive 2-population grid, cohorts up to 600/3000 samples) "
+             "and through the CLI at several precisions against exact rational values.",
+        note=NOTE_COMMON + " Partial clause: the binary64 evaluation of the pmf and of the sums is compared within 2^-30 relative (plus half a printed unit for text), not proved."),
+    "C08": dict(
+        text="Lean theorems: classify_spec (total and exact three-way classification, independent of phasing), any non-diploid genotype is a ploidy error, the column loop aborts iff a selected column has one and the run then "
+             "fails naming contig:pos, unselected columns are ignored, and the GT grammar parses every string it generates; every GT string of the finite alphabet is run through the VCF and the BCF path of the real binary.",
+        note=NOTE_COMMON + " noodles' GT parsing is compared with the model's grammar on the enumerated alphabet, not modelled internally. A wholly missing GT '.' counts as missing (fix b7debed)."),
+    "C09": dict(
+        text="Lean theorems: population ids = first appearance of labels, axis length 2n+1, sites invariant under permuting input columns, invariant under reordering list entries that keep the label order, "
+             "`--samples` and `--samples-file` spellings parse to the same list, empty list / unknown sample are errors; all transformations executed on the real binary and compared with the model.",
+        note=NOTE_COMMON + " The axis permutation induced by reordering labels is checked by correspondence (the model recomputes ids); no separate transposition theorem."),
+    "C10": dict(
+        text="Lean theorems: every counted site has weight exactly one (unit entry or product of hypergeometric distributions), conservation mass + skipped = records, a run fails exactly at the first stopping record "
+             "(strict: first skipped site or earlier genotype error) and strict = non-strict otherwise, the CLI writes stdout iff the run succeeded, summary line iff skipped > 0; faults injected at every stream position on the real binary.",
+        note=NOTE_COMMON + " The contig:pos reported for a corrupt record line comes from noodles' reader state and is not compared."),
+    "C11": dict(
+        text="Lean theorems: readSite = pure siteSpec for any prior buffer contents (the explicit reset and the per-record zeroed projection buffer), run = entrywise sum of per-record contributions, additivity over concatenation, "
+             "permutation invariance; per-record site-kind sequences from the real reader compared with the model over all ordered kind pairs, splits and permutations.",
+        note=NOTE_COMMON + " With projection the implementation's binary64 sums depend on order in the last bits; compared within 2^-30 relative."),
+    "C12": dict(
+        pending=True,
+        category="exploration",
+        text="PARTIAL. Proved in Lean: detection logic (gzip magic, BCF magic inside/outside gzip), the detection prefix is independent of the read schedule, `sfs create` factors through the decoded call set for all four containers "
+             "(codecs as parameters with explicit hypotheses), the shape ignores map iteration order. Explored, not proved: noodles' multithreaded BGZF reader, OS transport, hash seeds — each call set is executed 64-200 times "
+             "over containers x transports x thread counts x BGZF layouts x repeats and all stdout bytes / exit classes must coincide and equal the model's output.",
+        note=NOTE_COMMON + " Thread interleavings and block scheduling live in noodles-bgzf and the OS: no Lean model of this size can exhibit them; repetition explores them."),
 }
